@@ -58,6 +58,12 @@ def rule_policy(ctx):
                               loc=p.ret_site.loc() if p.ret_site else None)
                 else:
                     exp = (drop == 'false')
+                    if drop is None:
+                        ctx.bad('K4', 'process_origin:unsafe,%s=>continues' % pl,
+                                'under policy %s an overlapping VRP leaves process_origin before the SLURM filter / insertion is reached '
+                                '(inserted=%s): warn/accept must not remove anything' % (pl, inserted),
+                                loc=p.ret_site.loc() if p.ret_site else None)
+                        continue
                     ctx.check(inserted == exp, 'K4', 'process_origin:unsafe,%s,drop=%s' % (pl, drop),
                               'policy %s keeps the VRP (inserted=%s)' % (pl, inserted),
                               'policy %s removes an overlapping VRP (SLURM-filter=%s, inserted=%s): with warn/accept the filter '
@@ -100,6 +106,19 @@ def rule_provenance(ctx):
     who_calls(ctx, 'K3', 'payload::validation::RejectedResourcesBuilder::extend_from_cert',
               ['<payload::validation::PubPointProcessor as engine::ProcessPubPoint>::cancel'])
     who_calls(ctx, 'K3', 'engine::ProcessPubPoint::cancel', ['engine::PubPoint::reject_point'])
+    # recording is unconditional: every path through cancel / reject_point reaches the recording call
+    for bn, callee in (('<payload::validation::PubPointProcessor as engine::ProcessPubPoint>::cancel',
+                        'payload::validation::RejectedResourcesBuilder::extend_from_cert'),
+                       ('engine::PubPoint::reject_point', 'engine::ProcessPubPoint::cancel')):
+        cb = ctx.body(bn)
+        sites = cb.calls(callee)
+        nodes = {x.bb for x in sites}
+        free = [r for r in cb.returns() if cb.path_avoiding(r.bb, avoid_nodes=nodes) is not None]
+        ctx.check(bool(sites) and not free, 'K3', 'rejected-recorded-on-every-path:%s' % bn.split('::')[-1].rstrip('>'),
+                  'every path through %s calls %s (the resources of a rejected CA are always recorded)' % (bn.split('::')[-1], callee.split('::')[-1]),
+                  '%s can return without calling %s: the resources of a rejected CA are not marked unsafe on that path (e.g. only '
+                  'when logging is enabled), so overlapping VRPs elsewhere are kept under unsafe-vrps=reject' % (bn, callee),
+                  loc='%s:%d' % (cb.file, cb.line))
     b = ctx.body('payload::validation::RejectedResourcesBuilder::extend_from_cert')
     pushes = [s for s in b.calls('SegQueue::push') if arg_path(s, 0).endswith('.addrs')]
     ctx.floor('K3', 'pushes to addrs', len(pushes), 2)
